@@ -54,6 +54,9 @@ def fill_receivers(repo, cls, f):
         for tgt, it in gens:
             attrs = {a.attr for a in ast.walk(it) if isinstance(a, ast.Attribute) and isinstance(a.value, ast.Name)
                      and a.value.id == selfname and a.attr not in ("quantity", "transform")}
+            for a in ast.walk(it):
+                if isinstance(a, ast.Name) and a.id in var_src:
+                    attrs |= var_src[a.id]          # e.g. a tuple of alternatives bound earlier
             if attrs:
                 for x in ast.walk(tgt):
                     if isinstance(x, ast.Name):
